@@ -8,6 +8,10 @@
 #include <string>
 #include <cstdint>
 #include <cmath>
+#include <climits>
+#include <cfloat>
+#include <limits>
+#include <type_traits>
 #include <gmp.h>
 #include <gmpxx.h>
 #include "gmp++/gmp++.h"
@@ -30,14 +34,53 @@ static std::string WU(uint64_t x) { std::ostringstream o; o << (unsigned long lo
 static int64_t i64(const Integer& x) { return (int64_t)mpz_get_si(x.get_mpz_const()); }
 static uint64_t u64(const Integer& x) { return (uint64_t)mpz_get_ui(x.get_mpz_const()); }
 
-static Integer garbage() { return Integer("-123456789012345678901234567890123"); }
+// Destinations never start from 0 (a default-constructed Integer would hide a result that is simply not written):
+// every destination-bearing call form is executed once per garbage value below (positive / negative, single- / multi-limb)
+// and the results must coincide.  The word destinations of divmod start from the matching word garbage.
+static const int NGARB = 4;
+static const char* GARB[NGARB] = { "21845", "-7", "123456789012345678901234567890123", "-340282366920938463463374607431768211457" };
+static const int64_t WGARB[NGARB] = { 0x5555, -7, INT64_MAX, INT64_MIN + 1 };
+static int GI = 0;
+static Integer garbage(int k = 0) { Integer g; mpz_set_str(g.get_mpz(), GARB[(GI + k) % NGARB], 10); return g; }
 
 static std::string run(const std::string& f, const Integer& n, const Integer& d)
 {
     IntegerDom Z;
-    Integer q = garbage(), r = garbage();
+    Integer q = garbage(), r = garbage(1);
     const int64_t dl = i64(d); const uint64_t dul = u64(d);
     const int32_t di = (int32_t)dl; const uint32_t du = (uint32_t)dul;
+    // ---------------------------------------------------------------- configuration constants and raw C conversions
+    // (the CInt layer of the model: W64, H64, ... and to_u64 / to_i64 / to_i32 / to_i16 / round53 / truncation of a double)
+    if (f.compare(0, 4, "cfg.") == 0) {
+        if (f == "cfg.sizeof_long") return W(sizeof(long));
+        if (f == "cfg.givaro_sizeof_long") return W(__GIVARO_SIZEOF_LONG);
+        if (f == "cfg.limb_bits") return W(mp_bits_per_limb);
+        if (f == "cfg.ulong_max") return WU(ULONG_MAX);
+        if (f == "cfg.i64_min") return W(INT64_MIN);
+        if (f == "cfg.i64_max") return W(INT64_MAX);
+        if (f == "cfg.u64_max") return WU(UINT64_MAX);
+        if (f == "cfg.i32_min") return W(INT32_MIN);
+        if (f == "cfg.u32_max") return WU(UINT32_MAX);
+        if (f == "cfg.i16_min") return W(INT16_MIN);
+        if (f == "cfg.u16_max") return WU(UINT16_MAX);
+        if (f == "cfg.dbl_mant_dig") return W(DBL_MANT_DIG);
+        if (f == "cfg.dbl_round_nearest") return W(std::numeric_limits<double>::round_style == std::round_to_nearest ? 1 : 0);
+        if (f == "cfg.long_is_int64") return W((std::is_same<long, int64_t>::value && std::is_same<unsigned long, uint64_t>::value) ? 1 : 0);
+        return "UNKNOWN-FORM";
+    }
+    if (f.compare(0, 5, "cast.") == 0) {
+        const int64_t nl = i64(n); const uint64_t nul = u64(n);
+        if (f == "cast.i64_u64") return WU((uint64_t)nl);
+        if (f == "cast.u64_i64") return W((int64_t)nul);
+        if (f == "cast.i64_i32") return W((int32_t)nl);
+        if (f == "cast.i64_i16") return W((int16_t)nl);
+        if (f == "cast.u64_i32") return W((int32_t)(int64_t)nul);
+        if (f == "cast.abs64") { unsigned long a = std::abs(nl); return WU(a); }          // nl != INT64_MIN (the check never sends it)
+        if (f == "cast.neg64") { unsigned long a = -nl; return WU(a); }                    // idem
+        if (f == "cast.i64_dbl") { double x = static_cast<double>(nl); Integer t; mpz_set_d(t.get_mpz(), x); return S(t); }
+        if (f == "cast.dbl_u64") { double x = ldexp(mpz_get_d(n.get_mpz_const()), -4); return WU(static_cast<uint64_t>(x)); }
+        return "UNKNOWN-FORM";
+    }
     // ---------------------------------------------------------------- raw GMP
     if (f.compare(0, 4, "gmp.") == 0) {
         mpz_t a, b; mpz_init_set_str(a, "-987654321987654321987654321", 10); mpz_init_set_str(b, "-1234567", 10);
@@ -94,8 +137,8 @@ static std::string run(const std::string& f, const Integer& n, const Integer& d)
     if (f == "op/.u") { return S(n / du); }
     if (f == "op/.i") { return S(n / di); }
     if (f == "divmod.I") { Integer::divmod(q, r, n, d); return S(q) + " " + S(r); }
-    if (f == "divmod.l") { int64_t rr = 0x5555; Integer::divmod(q, rr, n, dl); return S(q) + " " + W(rr); }
-    if (f == "divmod.ul") { uint64_t rr = 0x5555; Integer::divmod(q, rr, n, dul); return S(q) + " " + WU(rr); }
+    if (f == "divmod.l") { int64_t rr = WGARB[GI]; Integer::divmod(q, rr, n, dl); return S(q) + " " + W(rr); }
+    if (f == "divmod.ul") { uint64_t rr = (uint64_t)WGARB[GI]; Integer::divmod(q, rr, n, dul); return S(q) + " " + WU(rr); }
     if (f == "ceil.r") { Integer::ceil(q, n, d); return S(q); }
     if (f == "floor.r") { Integer::floor(q, n, d); return S(q); }
     if (f == "trunc.r") { Integer::trunc(q, n, d); return S(q); }
@@ -165,6 +208,31 @@ static std::string run(const std::string& f, const Integer& n, const Integer& d)
     if (f == "w%I.l") { return S(i64(n) % d); }
     if (f == "w%I.u") { return S((uint32_t)u64(n) % d); }
     if (f == "w%I.ul") { return S(u64(n) % d); }
+    // more instantiations of the templates / promotions (phase 3)
+    if (f == "op%.Tc") { signed char dc = (signed char)dl; signed char x = n % dc; return W(x); }
+    if (f == "op%.Tuc") { unsigned char dc = (unsigned char)dul; unsigned char x = n % dc; return WU(x); }   // operator unsigned char: |r|
+    if (f == "op/=.Tf") { q = n; q /= (float)dl; return S(q); }
+    if (f == "op%=.Tf") { r = n; r %= (float)dl; return S(r); }
+    if (f == "mod.uc") { Integer::mod(r, n, (unsigned char)dul); return S(r); }
+    if (f == "w/I.s") { return S((short)i64(n) / d); }
+    if (f == "w%I.us") { return S((unsigned short)u64(n) % d); }
+    // `long` / `unsigned long` operands (the same types as int64_t / uint64_t on LP64: checked by cfg.long_is_int64)
+    if (f == "op/.L") { long x = (long)dl; return S(n / x); }
+    if (f == "op%.UL") { unsigned long x = (unsigned long)dul; int64_t y = n % x; return W(y); }
+    if (f == "mod.L") { long x = (long)dl; Integer::mod(r, n, x); return S(r); }
+    if (f == "divexact.qUL") { unsigned long x = (unsigned long)dul; Integer::divexact(q, n, x); return S(q); }
+    // multi-step use of one destination object: the result of an earlier call is what a later call finds in it
+    if (f == "seq.mod") { Integer::mod(r, n + d, d); Integer::mod(r, n, d); return S(r); }
+    if (f == "seq.mod.ul") { Integer::mod(r, n + 1, dul); Integer::mod(r, n, dul); return S(r); }
+    if (f == "seq.mod.l") { Integer::mod(r, n - 1, dl); Integer::mod(r, n, dl); return S(r); }
+    if (f == "seq.div") { Integer::div(q, n + d, d); Integer::div(q, n, d); return S(q); }
+    if (f == "seq.div.ul") { Integer::div(q, n + 1, dul); Integer::div(q, n, dul); return S(q); }
+    if (f == "seq.div.l") { Integer::div(q, n - 1, dl); Integer::div(q, n, dl); return S(q); }
+    if (f == "seq.divexact") { Integer::divexact(q, n + d, d); Integer::divexact(q, n, d); return S(q); }
+    if (f == "seq.divexact.ul") { Integer::divexact(q, n + d, dul); Integer::divexact(q, n, dul); return S(q); }
+    if (f == "seq.divexact.l") { Integer::divexact(q, n - d, dl); Integer::divexact(q, n, dl); return S(q); }
+    if (f == "seq.trem.ul") { Integer::trem(r, n + 1, dul); Integer::trem(r, n, dul); return S(r); }
+    if (f == "seq.divmod") { Integer::divmod(q, r, n + 1, d); Integer::divmod(q, r, n, d); return S(q) + " " + S(r); }
     // ---------------------------------------------------------------- givinteger.h
     if (f == "dom.div") { Z.div(q, n, d); return S(q); }
     if (f == "dom.divin") { q = n; Z.divin(q, d); return S(q); }
@@ -179,6 +247,12 @@ static std::string run(const std::string& f, const Integer& n, const Integer& d)
     if (f == "dom.remin") { r = n; Z.remin(r, d); return S(r); }
     if (f == "dom.quoRem") { Z.quoRem(q, r, n, d); return S(q) + " " + S(r); }
     if (f == "dom.isDivisor") { return Z.isDivisor(n, d) ? "1" : "0"; }
+    // the non-virtual base class UnparametricZRing<Integer> (unparametric-operations.h): x = y / z, x = y % z (truncating)
+    { const UnparametricZRing<Integer>& B = Z;
+      if (f == "zbase.div") { B.div(q, n, d); return S(q); }
+      if (f == "zbase.divin") { q = n; B.divin(q, d); return S(q); }
+      if (f == "zbase.mod") { B.mod(r, n, d); return S(r); }
+      if (f == "zbase.modin") { r = n; B.modin(r, d); return S(r); } }
     return "UNKNOWN-FORM";
 }
 
@@ -194,7 +268,19 @@ int main()
         if (mpz_set_str(n.get_mpz(), a.c_str(), 10) != 0 || mpz_set_str(d.get_mpz(), b.c_str(), 10) != 0) {
             std::cout << "BAD-LINE\n"; continue;
         }
-        std::cout << run(f, n, d) << "\n";
+        // every garbage value of the destinations; the answer must not depend on it
+        GI = 0;
+        std::string out = run(f, n, d);
+        if (f.compare(0, 4, "gmp.") != 0 && f.compare(0, 4, "cfg.") != 0 && f.compare(0, 5, "cast.") != 0) {
+            std::string diff;
+            for (GI = 1; GI < NGARB; ++GI) {
+                std::string o2 = run(f, n, d);
+                if (o2 != out) { std::ostringstream os; os << " | destination initially " << GARB[GI] << ": " << o2; diff += os.str(); }
+            }
+            GI = 0;
+            if (!diff.empty()) out = "DEST-DEPENDENT destination initially " + std::string(GARB[0]) + ": " + out + diff;
+        }
+        std::cout << out << "\n";
         std::cout.flush();   // a crash (e.g. SIGFPE inside GMP) must not lose the lines already produced: the check locates the crashing case by counting them
     }
     return 0;
